@@ -13,8 +13,10 @@
                    BoundaryConstraintGroup::evaluate_at(state, x_t) for every t
        cnum, cz    per assertion and coset step i: T_col(x_i) - b_a(x_i) and Z_a(x_i) (Boundary.tla), where T
                    is the trace polynomial of the asserted column in the trace handed to the prover
-       comp        the prover's composition trace (DefaultConstraintEvaluator::evaluate, all transition
-                   constraints identically zero) at those coset steps; <<>> when it was not run
+       blowups, comp   the prover's composition trace (DefaultConstraintEvaluator::evaluate, all transition
+                   constraints identically zero) at those coset steps, one vector per option (LDE) blowup
+                   — the constraint evaluation domain, hence the definition, does not depend on it;
+                   <<>> when the evaluator was not run
    An event is explained iff
        Bijection     every permutation's assignment uses every coefficient exactly once
        OrderFree     all permutations give the same assignment                 (the property)
@@ -57,12 +59,14 @@ RECURSIVE CSum(_, _, _)
 CSum(e, i, a) ==
   IF a > e.n THEN EZero(e.d)
   ELSE EAdd(e.P, EDiv(e.P, EMul(e.P, El(e.cc[e.assign[1][a]], e.d), El(e.cnum[a][i], e.d)), Base(e.cz[a][i], e.d)), CSum(e, i, a + 1))
-CompValue(e) == \A i \in 1..Len(e.comp) : El(e.comp[i], e.d) = CSum(e, i, 1)
+CompOk(e, k) == \A i \in 1..Len(e.comp[k]) : El(e.comp[k][i], e.d) = CSum(e, i, 1)
+CompValue(e) == \A k \in 1..Len(e.comp) : CompOk(e, k)
+FirstBadBlowup(e) == e.blowups[CHOOSE k \in 1..Len(e.comp) : ~CompOk(e, k) /\ \A j \in 1..(k - 1) : CompOk(e, j)]
 
 Explains(e) == Bijection(e) /\ OrderFree(e) /\ Partition(e) /\ GroupValue(e) /\ CompValue(e)
 Why(e) == IF ~Bijection(e) THEN "Bijection" ELSE IF ~OrderFree(e) THEN "OrderFree"
           ELSE IF ~Partition(e) THEN "Partition" ELSE IF ~GroupValue(e) THEN "GroupValue"
-          ELSE IF ~CompValue(e) THEN "CompValue" ELSE "explained"
+          ELSE IF ~CompValue(e) THEN "CompValue_lde_blowup_" \o ToString(FirstBadBlowup(e)) ELSE "explained"
 
 Init == l = 1
 Next == l <= Len(Rec) /\ Explains(Rec[l]) /\ l' = l + 1
